@@ -75,7 +75,7 @@ def to_f32(t):
 
 
 def run_wavesim(c, delays, sims, caps, reuse, strip, s0, s1, s2, extra, tcap=None, a_ctrl=None, cuda=False, prop_sims=None,
-                simctl=None, seed=1, warm=None):
+                simctl=None, seed=1, warm=None, repickle=None):
     """warm = (s0, s1, s2, extra) of an EARLIER round simulated on the same simulator object (assign, direct waveform writes,
     propagate, capture) before the round proper: a simulator is allocated once and used for many batches, so nothing of an earlier
     round may survive into the next one.  w.abuf_warm is the accumulator content after the earlier round."""
@@ -106,6 +106,10 @@ def run_wavesim(c, delays, sims, caps, reuse, strip, s0, s1, s2, extra, tcap=Non
             if loc >= 0:
                 for j, t in enumerate(wf):
                     w.c[loc + j, lane] = to_f32(t)
+        if repickle is not None:
+            # a simulator is sent to a worker process / copied before it propagates: pickle round trip or deepcopy of the assigned simulator
+            import pickle, copy
+            w = pickle.loads(pickle.dumps(w)) if repickle == 'pickle' else copy.deepcopy(w)
         w.c_prop(sims=prop_sims, seed=seed) if prop_sims is not None else w.c_prop(seed=seed)
         w.c_to_s(time=(wave_sim.TMAX if tcap is None else tcap))
     return w
